@@ -112,7 +112,7 @@ class Range(object):
 
         """
         for a in range(0, self.N):
-            yield (a-self.N/2) * self.df
+            yield (a-self.N//2) * self.df
 
     def twosided_gen(self):
         """Returns the twosided frequency range as a generator
